@@ -98,3 +98,69 @@ Definition mpow_scaled (M : mat) (k : nat) : mat :=
   | O => identity (length M)
   | S _ => map (map (fun z => Q2Qc (Qmake z Lk))) (zmpow (scale_to_Z L M) k)
   end.
+
+(* ---- Gauss-Jordan elimination on an augmented matrix (rows = equations).
+   Returns the reduced rows; None when a pivot column has no non-zero entry. ---- *)
+Definition row_scale (c : Qc) (r : vec) : vec := map (fun x => (c * x)%Qc) r.
+Definition row_sub (r s : vec) (c : Qc) : vec := map (fun p => (fst p - c * snd p)%Qc) (combine r s).
+
+(* find the first row (from position k on) with a non-zero entry in column k *)
+Fixpoint find_pivot (k : nat) (rows : list vec) : option (vec * list vec) :=
+  match rows with
+  | [] => None
+  | r :: rest =>
+      if Qc_eqb (nth k r 0%Qc) 0 then
+        match find_pivot k rest with
+        | Some (p, others) => Some (p, r :: others)
+        | None => None
+        end
+      else Some (r, rest)
+  end.
+
+(* done: already reduced rows (pivots 0..k-1), todo: remaining rows *)
+Fixpoint gauss_jordan (fuel k : nat) (done todo : list vec) : option (list vec) :=
+  match fuel with
+  | O => match todo with [] => Some done | _ => None end
+  | S f =>
+      match todo with
+      | [] => Some done
+      | _ =>
+          match find_pivot k todo with
+          | None => None
+          | Some (p, others) =>
+              let p' := row_scale (/ nth k p 0)%Qc p in
+              let elim := fun r => row_sub r p' (nth k r 0%Qc) in
+              gauss_jordan f (S k) (map elim done ++ [p']) (map elim others)
+          end
+      end
+  end.
+
+(* inverse of a square matrix: reduce [A | I], read off the right half *)
+Definition inverse (A : mat) : option mat :=
+  let n := length A in
+  match gauss_jordan n 0 [] (map (fun p => fst p ++ snd p) (combine A (identity n))) with
+  | Some rows => Some (map (skipn n) rows)
+  | None => None
+  end.
+(* solve A x = b *)
+Definition solve (A : mat) (b : vec) : option vec :=
+  let n := length A in
+  match gauss_jordan n 0 [] (map (fun p => fst p ++ [snd p]) (combine A b)) with
+  | Some rows => Some (map (fun r => nth n r 0%Qc) rows)
+  | None => None
+  end.
+
+Definition mat_eqb (A B : mat) : bool :=
+  Nat.eqb (length A) (length B) &&
+  forallb (fun p => Nat.eqb (length (fst p)) (length (snd p)) &&
+                    forallb (fun q => Qc_eqb (fst q) (snd q)) (combine (fst p) (snd p))) (combine A B).
+Definition vec_eqb (a b : vec) : bool :=
+  Nat.eqb (length a) (length b) && forallb (fun q => Qc_eqb (fst q) (snd q)) (combine a b).
+
+(* certified inverse: returned only if A * X = I and X * A = I *)
+Definition inverse_cert (A : mat) : option mat :=
+  match inverse A with
+  | Some X => if mat_eqb (mmul A X) (identity (length A)) && mat_eqb (mmul X A) (identity (length A))
+              then Some X else None
+  | None => None
+  end.
